@@ -37,6 +37,7 @@ func init() {
 			{ID: "C06.R15", Text: "a loaded checkpoint is the one stored for that vBucket: the file backend returns the decoded file under the keys it was written with (no re-keying by position), an empty document per requested vBucket when there is no file (same rule as C02.R15)", Run: fileLoadExact},
 			{ID: "C06.R16", Text: "a server event outside its announced snapshot stops the client: the module never recovers a panic (same rule as C15.R23)", Run: neverRecovers},
 			{ID: "C06.R17", Text: "the fail-over log and sequence numbers a resume point is built from are the current answers of the server: no caching layer in front of the client (same rules as C20.R19 and C20.R20)", Run: func(c *Ctx, id string) { decoratorsTransparent()(c, id); noNewLayers(c, id) }},
+			{ID: "C06.R18", Text: "the tracked tuple stays on the branch the stream is on: the position writer never stores an offset below the tracked one, whatever the branch ids of the two — a late acknowledgement of the old branch cannot replace the tuple of the new one (same rule as C04.R1)", Run: c04r1},
 			{ID: "C06.R5", Text: "the persisted document is built field by field from one offset (same rule as C02.R2)", Run: c02r2},
 		},
 	})
